@@ -130,7 +130,9 @@ func checkImplementation(
 			// For &Interface, we need pointer receiver methods
 			// (but value receiver methods are also OK per Go spec:
 			// method set of *T includes methods with receiver T or *T)
-			typeMethods[methodKey(method.Name, method.id)] = method
+			if !method.valueOnly {
+				typeMethods[methodKey(method.Name, method.id)] = method
+			}
 		} else {
 			// For Interface (no &), we need value receiver methods only
 			if !method.ReceiverIsPointer {
